@@ -774,7 +774,9 @@ def _stdio_worker(args):
         if res.get("inconclusive"):
             counts["stdio_inconclusive_sessions"] += 1
         ndocs = len({o["uri"] for o in ops})
-        if res.get("max_threads", 0) > 4 + ndocs:
+        # main + 2 stdio threads + one analysis thread per open document (+1 while a join is in flight); the
+        # ThreadSanitizer runtime adds a background thread of its own
+        if res.get("max_threads", 0) > 4 + ndocs + (1 if tsan else 0):
             V("stdio:thread-leak", f"{res['max_threads']} threads in lelwel-ls with {ndocs} documents", wit)
         # differential: stdio answers == in-process answers
         rep = server.ask("lsp", ops=ops, per_op_ms=30000)
